@@ -56,6 +56,11 @@ def cases(tier, seed):
         for name in DES_N:
             out.append(dict(gen='des', ns=ns, name=name, sub=core.subseed('C07', seed, k), must=True))
             k += 1
+    # batches holding exactly as many traces as there are guesses (the two leading axes of the output then have the same length)
+    out.append(dict(gen='aes', keysize=16, ns='encrypt', name='FirstSubBytes', n=256, sub=core.subseed('C07sq', seed, 0), must=True))
+    out.append(dict(gen='aes', keysize=32, ns='decrypt', name='FirstAddRoundKey', n=256, sub=core.subseed('C07sq', seed, 1), must=True))
+    out.append(dict(gen='des', ns='encrypt', name='FirstSboxes', n=64, sub=core.subseed('C07sq', seed, 2), must=True))
+    out.append(dict(gen='des', ns='decrypt', name='DeltaRFirstRounds', n=64, sub=core.subseed('C07sq', seed, 3), must=True))
     rs = np.random.default_rng(core.subseed('C07r', seed))
     n_rand = 150 if tier == 'quick' else 5000
     for j in range(n_rand):
@@ -148,7 +153,7 @@ def run_aes(case):
     ks, ns, name = case['keysize'], case['ns'], case['name']
     mod = getattr(scared.aes.selection_functions, ns)
     ctor = getattr(mod, name)
-    n = int(rng.choice([1, 2, 3, 7, 40]))
+    n = int(rng.choice([1, 2, 3, 7, 40])) if not case.get('n') else int(case['n'])
     first_key = (ns == 'encrypt' and name.startswith('First')) or (ns == 'decrypt' and name.startswith('Last'))
     # which metadata the function reads: functions keyed by the first round key read the plaintext, the others the ciphertext
     tag = 'plaintext' if first_key else 'ciphertext'
@@ -232,7 +237,7 @@ def _slicing(t, rng, ctor, tag, data_in, full, ng, nw, info):
         elif gk == 1:
             G = rng.permutation(ng).astype('uint8')[:int(rng.integers(1, ng + 1))]
         else:
-            G = rng.integers(0, ng, int(rng.integers(1, 12))).astype('uint8')
+            G = rng.integers(0, ng, int(rng.integers(1, 12)) if rng.random() < 0.6 else data_in.shape[0]).astype('uint8')     # sometimes as many guesses as traces
         kw = dict(guesses=G if rng.random() < 0.8 or gk else range(ng))
         if W is not None:
             kw['words'] = W
@@ -254,7 +259,7 @@ def run_des(case):
     rng = gen.rng_of(case['sub'])
     ns, name = case['ns'], case['name']
     ctor = getattr(getattr(scared.des.selection_functions, ns), name)
-    n = int(rng.choice([1, 2, 5, 20]))
+    n = int(rng.choice([1, 2, 5, 20])) if not case.get('n') else int(case['n'])
     first_key = (ns == 'encrypt' and 'First' in name) or (ns == 'decrypt' and 'Last' in name)
     tag = 'plaintext' if first_key else 'ciphertext'
     ddt = ['uint8', 'uint8', 'int16', 'int32', 'uint16'][int(rng.integers(5))]
@@ -278,7 +283,7 @@ def run_des(case):
         return D.stop_value(rec, pre, ct, 0, step)
 
     bad = None
-    for g in range(64):
+    for g in (range(64) if n <= 20 else sorted(set(rng.integers(0, 64, 12).tolist()) | {0, 63})):
         key = des_key_with_round_key(rng, 0 if first_key else 15, g)
         t.count('constructed_keys')
         for r in range(n):
